@@ -442,7 +442,9 @@ def check_c01(tier, seed):
     for dn, hs in random_batches(seed + 13, tier, 24, 300, 40, dicts=("G", "D")).items():
         run_batch(out, f"order{dn}", dn, hs)
     # names at the 31-unit limit counted in UTF-16 units (surrogate pairs count twice), NULs and high-BMP characters
-    for dn, hs in random_batches(seed + 17, tier, 16, 200, 30, dicts=("E", "C", "X")).items():
+    # (with a reopen - strict and permissive in turn - every eighth step or so: "on files created fresh or reopened" - what a
+    # reader does to an unusual name shows only in the continuation on the reopened file)
+    for dn, hs in random_batches(seed + 17, tier, 24, 200, 30, dicts=("E", "C", "X"), reopen_p=0.12).items():
         run_batch(out, f"names{dn}", dn, hs)
     return finish(out, "model_checking",
                   "G1b: every transition of the MC_Tree state graph replayed on the real library (last two steps heavy + query battery); "
